@@ -33,6 +33,11 @@ import (
 )
 
 // what is translated: package -> function keys ("recvType.method" or "func")
+// interfaces of the source modelled as sums of the struct types that implement them (nil = the `none` alternative)
+var xlateSums = map[string][]string{
+	"operation": {"lit", "match"},
+}
+
 var xlateTargets = map[string][]string{
 	"lzma": {
 		"prob.dec", "prob.inc", "prob.bound",
@@ -50,6 +55,9 @@ var xlateTargets = map[string][]string{
 		"prob.Encode", "prob.Decode", "lengthCodec.Encode", "lengthCodec.Decode",
 		"distCodec.Encode", "distCodec.Decode",
 		"literalCodec.Encode", "literalCodec.Decode",
+		"buffer.Cap", "buffer.Available", "decoderDict.dictLen", "decoderDict.byteAt",
+		"encoderDict.Len", "encoderDict.Pos", "encoderDict.ByteAt", "iverson",
+		"decoder.decodeLiteral", "decoder.readOp", "encoder.writeLiteral", "encoder.writeMatch",
 	},
 	".": {"padLen", "readUvarint"},
 }
@@ -87,6 +95,7 @@ type xl struct {
 	structs     map[string]*xstruct
 	sorder      []string
 	usedStructs map[string]bool
+	usedSums    map[string]bool
 	globals     map[string]string // lean defs of global tables
 	gorder      []string
 }
@@ -170,6 +179,18 @@ func (x *xl) leanType(n ast.Node, t types.Type) string {
 		return x.leanType(n, p.Elem())
 	}
 	if nm, ok := t.(*types.Named); ok {
+		if alts, ok := xlateSums[nm.Obj().Name()]; ok && nm.Obj().Pkg() == x.pkg {
+			for _, a := range alts {
+				if o, ok := x.pkg.Scope().Lookup(a).(*types.TypeName); ok {
+					x.leanType(n, o.Type())
+					x.usedStructs[a] = true
+				}
+			}
+			x.usedSums[nm.Obj().Name()] = true
+			return "GoSrc.S_" + nm.Obj().Name()
+		}
+	}
+	if nm, ok := t.(*types.Named); ok {
 		if _, ok := nm.Underlying().(*types.Struct); ok {
 			x.usedStructs[nm.Obj().Name()] = true
 			return x.structOf(nm).lean
@@ -204,6 +225,11 @@ func (x *xl) zeroOf(n ast.Node, t types.Type) string {
 	}
 	if _, ok := t.(*types.Slice); ok {
 		return "#[]"
+	}
+	if nm, ok := t.(*types.Named); ok {
+		if _, ok := xlateSums[nm.Obj().Name()]; ok {
+			return "GoSrc.S_" + nm.Obj().Name() + ".none"
+		}
 	}
 	if at, ok := t.(*types.Array); ok {
 		return fmt.Sprintf("(Array.replicate %d %s)", at.Len(), x.zeroOf(n, at.Elem()))
@@ -247,8 +273,10 @@ func (x *xl) structOf(nm *types.Named) *xstruct {
 			}
 			if nm := derefNamed(f.Type()); nm != nil {
 				// a nested struct is kept only when it is representable completely
+				// a nested struct is kept when at least one of its fields is representable (its unsupported fields —
+				// interfaces, maps — are dropped, and a function touching them fails to translate)
 				ns := x.structOf(nm)
-				if len(ns.fields) != nm.Underlying().(*types.Struct).NumFields() || len(ns.fields) == 0 {
+				if len(ns.fields) == 0 {
 					return
 				}
 			}
@@ -489,7 +517,33 @@ func isNilIdent(e ast.Expr) bool {
 }
 
 // expression in a context that expects type t (gives an untyped nil its type)
+func sumName(t types.Type) string {
+	if nm, ok := t.(*types.Named); ok {
+		if _, ok := xlateSums[nm.Obj().Name()]; ok {
+			return nm.Obj().Name()
+		}
+	}
+	return ""
+}
+
 func (c *xctx) exprT(e ast.Expr, t types.Type) string {
+	if sn := sumName(t); sn != "" {
+		c.x.leanType(e, t)
+		if isNilIdent(e) {
+			return "GoSrc.S_" + sn + ".none"
+		}
+		et := c.x.info.Types[e].Type
+		if ent, ok := et.(*types.Named); ok && sumName(et) == "" {
+			// a concrete implementation stored in the interface
+			for _, a := range xlateSums[sn] {
+				if a == ent.Obj().Name() {
+					return fmt.Sprintf("(GoSrc.S_%s.%s %s)", sn, leanIdent(a), c.expr(e))
+				}
+			}
+			c.x.fail(e, "type %s is not a registered alternative of %s", ent.Obj().Name(), sn)
+		}
+		return c.expr(e)
+	}
 	if isNilIdent(e) {
 		if isErrorType(t) {
 			return "Go.Err.nil"
@@ -561,7 +615,19 @@ func (c *xctx) complit(cl *ast.CompositeLit) string {
 	for _, el := range cl.Elts {
 		kv, ok := el.(*ast.KeyValueExpr)
 		if !ok {
-			c.x.fail(cl, "positional composite literal")
+			// positional: the i-th field
+			st := nm.Underlying().(*types.Struct)
+			if len(cl.Elts) != st.NumFields() {
+				c.x.fail(cl, "positional composite literal with missing fields")
+			}
+			for j, pe := range cl.Elts {
+				f := st.Field(j)
+				if !xs.has[f.Name()] {
+					c.x.fail(cl, "field %s outside the subset", f.Name())
+				}
+				set[f.Name()] = c.exprT(pe, f.Type())
+			}
+			break
 		}
 		k := kv.Key.(*ast.Ident).Name
 		if !xs.has[k] {
@@ -597,6 +663,12 @@ func (c *xctx) index(v *ast.IndexExpr) string {
 		return fmt.Sprintf("(%s.getD %s %s)", c.expr(vw.base), i, c.x.zeroOf(v, sl.Elem()))
 	}
 	if at, ok := xt.(*types.Array); ok && !c.isGlobalArray(v.X) {
+		if tv := c.x.info.Types[v.Index]; tv.Value != nil {
+			if k, exact := constant.Int64Val(constant.ToInt(tv.Value)); exact && k >= 0 && k < at.Len() {
+				// constant index inside the array's static length: checked by the Go compiler
+				return fmt.Sprintf("(%s.getD %d %s)", c.expr(v.X), k, c.x.zeroOf(v, at.Elem()))
+			}
+		}
 		arr := c.expr(v.X)
 		i, ok := c.idxMemo[v]
 		if !ok {
@@ -836,6 +908,14 @@ func (c *xctx) path(e ast.Expr) (types.Object, []string) {
 			}
 			return o, append(p, "["+i+"]")
 		}
+		if at, ok := c.x.info.Types[v.X].Type.Underlying().(*types.Array); ok && !c.isGlobalArray(v.X) {
+			if tv := c.x.info.Types[v.Index]; tv.Value != nil {
+				if k, exact := constant.Int64Val(constant.ToInt(tv.Value)); exact && k >= 0 && k < at.Len() {
+					o, p := c.path(v.X)
+					return o, append(p, fmt.Sprintf("[%d]", k))
+				}
+			}
+		}
 		_, isSlice := c.x.info.Types[v.X].Type.Underlying().(*types.Slice)
 		_, isArray := c.x.info.Types[v.X].Type.Underlying().(*types.Array)
 		if isSlice || (isArray && !c.isGlobalArray(v.X)) {
@@ -897,6 +977,17 @@ func (c *xctx) call(v *ast.CallExpr) []string {
 			return []string{fmt.Sprintf("(BitVec.signExtend %d %s)", db, a)}
 		default:
 			return []string{fmt.Sprintf("(BitVec.setWidth %d %s)", db, a)}
+		}
+	}
+	// len(slice / array)
+	if id, ok := v.Fun.(*ast.Ident); ok && id.Name == "len" && len(v.Args) == 1 {
+		if _, isB := info.Uses[id].(*types.Builtin); isB {
+			switch at := info.Types[v.Args[0]].Type.Underlying().(type) {
+			case *types.Slice:
+				return []string{fmt.Sprintf("(BitVec.ofNat 64 (%s).size)", c.expr(v.Args[0]))}
+			case *types.Array:
+				return []string{fmt.Sprintf("(%d#64)", at.Len())}
+			}
 		}
 	}
 	// errors.New("…")
@@ -989,6 +1080,10 @@ func (c *xctx) call(v *ast.CallExpr) []string {
 		}
 	}
 	call := tf.lean + " " + strings.Join(args, " ")
+	if !tf.canFail && len(pat) == 1 && len(res) == 1 {
+		// a pure function (no panic, no loop, nothing mutated): an ordinary expression
+		return []string{"(" + call + ")"}
+	}
 	var p string
 	switch len(pat) {
 	case 0:
@@ -1373,8 +1468,10 @@ func (c *xctx) assign(v *ast.AssignStmt) string {
 					target(l, tmps[i])
 				}
 			} else {
-				if isNilIdent(v.Rhs[0]) {
-					target(v.Lhs[0], c.exprT(v.Rhs[0], info.Types[v.Lhs[0]].Type))
+				if lt := info.Types[v.Lhs[0]].Type; lt != nil && (isNilIdent(v.Rhs[0]) || sumName(lt) != "") {
+					target(v.Lhs[0], c.exprT(v.Rhs[0], lt))
+				} else if v.Tok == token.DEFINE {
+					target(v.Lhs[0], c.expr(v.Rhs[0]))
 				} else {
 					target(v.Lhs[0], c.expr(v.Rhs[0]))
 				}
@@ -1644,7 +1741,7 @@ func genGoSrc(dir string) error {
 		conf := types.Config{Importer: importer.ForCompiler(p.fset, "source", nil), Error: func(error) {}}
 		info := &types.Info{Types: map[ast.Expr]types.TypeAndValue{}, Uses: map[*ast.Ident]types.Object{}, Defs: map[*ast.Ident]types.Object{}, Selections: map[*ast.SelectorExpr]*types.Selection{}}
 		pkg, _ := conf.Check("github.com/ulikunitz/xz/"+rel, p.fset, p.files, info)
-		x := &xl{p: p, info: info, pkg: pkg, funcs: map[string]*xfunc{}, byObj: map[*types.Func]*xfunc{}, structs: map[string]*xstruct{}, globals: map[string]string{}, usedStructs: map[string]bool{}}
+		x := &xl{p: p, info: info, pkg: pkg, funcs: map[string]*xfunc{}, byObj: map[*types.Func]*xfunc{}, structs: map[string]*xstruct{}, globals: map[string]string{}, usedStructs: map[string]bool{}, usedSums: map[string]bool{}}
 		want := map[string]bool{}
 		for _, k := range xlateTargets[rel] {
 			want[k] = true
@@ -1763,6 +1860,18 @@ func genGoSrc(dir string) error {
 			if x.usedStructs[n] {
 				emitStruct(n)
 			}
+		}
+		var sums []string
+		for sn := range x.usedSums {
+			sums = append(sums, sn)
+		}
+		sort.Strings(sums)
+		for _, sn := range sums {
+			fmt.Fprintf(&sb, "inductive S_%s where\n  | none\n", sn)
+			for _, a := range xlateSums[sn] {
+				fmt.Fprintf(&sb, "  | %s (v : GoSrc.T_%s)\n", leanIdent(a), a)
+			}
+			sb.WriteString("  deriving Inhabited, DecidableEq, Repr\n\n")
 		}
 		for _, g := range x.gorder {
 			sb.WriteString(x.globals[g] + "\n")
